@@ -13,6 +13,7 @@ use serde_json::json;
 pub fn gens() -> Vec<Gen> {
     vec![
         Gen { name: "c04.attacks", prop: "C04", tags: &["sd_hash", "nonce", "aud", "typ", "kb", "verify_key_binding", "src/verifier.rs"], cases: cases_attacks, check },
+        Gen { name: "c04.verify_sequence", prop: "C04", tags: &["cache", "sequence", "again", "aud", "verify_key_binding"], cases: cases_verify_sequence, check: check_verify_sequence },
         Gen { name: "c04.issuer_sequence", prop: "C04", tags: &["cnf", "holder_key", "issuer", "src/issuer.rs"], cases: cases_sequence, check },
         Gen { name: "c04.kb_chars", prop: "C04", tags: &["char"], cases: cases_chars, check },
     ]
@@ -400,4 +401,77 @@ pub fn check(case: &J) -> Verdict {
         }
         _ => Verdict::Trivial,
     }
+}
+
+/// Several verifications of ONE honest key-bound presentation on one thread, with right and
+/// wrong expectations in every order: each must decide as it would on its own.
+fn cases_verify_sequence(_rng: &mut Rng, sink: &mut dyn FnMut(J) -> bool) {
+    let wrong = [
+        json!({"aud": "other"}), json!({"aud": "empty"}), json!({"aud": "upper"}), json!({"aud": "slash"}), json!({"aud": "prefix"}), json!({"aud": "nonce"}),
+        json!({"nonce": "other"}), json!({"nonce": "empty"}), json!({"nonce": "upper"}), json!({"nonce": "aud"}), json!({"aud": "other", "nonce": "other"}),
+        json!({"aud": "absent"}), json!({"nonce": "absent"}),
+    ];
+    let right = json!({});
+    let mut seqs: Vec<Vec<J>> = Vec::new();
+    for w in &wrong {
+        seqs.push(vec![right.clone(), w.clone()]);
+        seqs.push(vec![w.clone(), right.clone(), w.clone(), right.clone()]);
+    }
+    seqs.push(std::iter::once(right.clone()).chain(wrong.iter().cloned()).chain(std::iter::once(right.clone())).collect());
+    for cfg in [cfg_of("compact", "ES256", "es256", false), cfg_of("json", "EdDSA", "eddsa", true), cfg_of("json", "ES256", "es256", false), cfg_of("compact", "HS256", "eddsa", false)] {
+        for select in ["all", "nothing"] {
+            for seq in &seqs {
+                let mut c = case_of(&cfg, json!({"kind": "verify_sequence", "select": select}), AUD, NONCE);
+                c["sequence"] = J::Array(seq.clone());
+                if !sink(c) {
+                    return;
+                }
+            }
+        }
+    }
+}
+
+fn check_verify_sequence(case: &J) -> Verdict {
+    let Some(cfg) = Cfg::from_json(case) else { return Verdict::Trivial };
+    let Some(holder) = cfg.holder.clone() else { return Verdict::Trivial };
+    let Some(seq) = case["sequence"].as_array() else { return Verdict::Trivial };
+    let kb = Kb { nonce: NONCE.into(), aud: AUD.into(), holder };
+    let sel = if case["attack"]["select"] == "nothing" { serde_json::Map::new() } else { select_all(&cfg.claims) };
+    let issued = match cfg.issue() {
+        Out::Ok(s) => s,
+        o => return fail(format!("issue_sd_jwt -> {}", o.brief()), "Ok"),
+    };
+    let Out::Ok(mut h) = sut::holder_new(&issued, &cfg.format) else { return fail("SDJWTHolder::new failed", "Ok") };
+    let pres = match sut::present(&mut h, &sel, Some(&kb)) {
+        Out::Ok(p) => p,
+        o => return fail(format!("create_presentation with key binding -> {}", o.brief()), "Ok"),
+    };
+    let variant = |base: &str, how: Option<&str>, other_field: &str| -> Option<String> {
+        match how {
+            None => Some(base.to_string()),
+            Some("other") => Some(format!("{base}-other")),
+            Some("empty") => Some(String::new()),
+            Some("upper") => Some(base.to_uppercase()),
+            Some("slash") => Some(format!("{base}/")),
+            Some("prefix") => Some(base[..base.len() - 1].to_string()),
+            Some("aud") | Some("nonce") => Some(other_field.to_string()),
+            _ => None, // absent
+        }
+    };
+    let mut history = Vec::new();
+    for (i, step) in seq.iter().enumerate() {
+        let aud = variant(AUD, step["aud"].as_str(), NONCE);
+        let nonce = variant(NONCE, step["nonce"].as_str(), AUD);
+        let right = aud.as_deref() == Some(AUD) && nonce.as_deref() == Some(NONCE);
+        let o = sut::verify_with(&pres, &J::String(cfg.alg.clone()), aud.as_deref(), nonce.as_deref(), &cfg.format);
+        let what = format!("verification #{} of the same presentation expecting aud {:?}, nonce {:?} (earlier on this thread: {})", i + 1, aud, nonce, if history.is_empty() { "nothing".to_string() } else { history.join(", ") });
+        match (&o, right) {
+            (Out::Ok(_), true) | (Out::Err(_), false) => {}
+            (Out::Ok(_), false) => return fail(format!("ACCEPTED: {what}"), "rejected: the KB-JWT names another audience / nonce (or only one of aud/nonce was given)"),
+            (Out::Err(e), true) => return fail(format!("rejected ({e}): {what}"), "accepted"),
+            (Out::Panic(m), _) => return fail(format!("PANIC: {m} in {what}"), "Ok or Err"),
+        }
+        history.push(format!("#{} {}", i + 1, if o.is_ok() { "accepted" } else { "rejected" }));
+    }
+    Verdict::Pass
 }
